@@ -156,18 +156,22 @@ class Engine:
         full = name if n == 1 else f"{name}@path{n}"
         if is_true(goal):
             goal = TRUE
-        o = Obligation(full, list(self.axioms) + list(st.pc), goal, dict(self.interest), prop or self.clause_prop(label),
+        o = Obligation(full, list(self.axioms) + list(st.pc), goal, dict(self.interest), prop if prop else self.clause_prop(label),
                        kind, info=info or {})
         o.info["trace"] = list(st.trace)
         self.obls.append(o)
         return o
 
     def clause_prop(self, label: str) -> str:
+        # explicit clause-level tag, else "" (shared support obligation, counted under every property
+        # that lists the function)
         c = self.contract
         if c:
-            base = label.split(":")[-1]
-            return c.props.get(base, c.prop or self.prop)
-        return self.prop
+            parts = label.split(":")
+            for base in (parts[-1], parts[-2] if len(parts) > 1 else ""):
+                if base in c.props:
+                    return c.props[base]
+        return ""
 
     def feasible(self, st: State) -> bool:
         if not self.prune:
@@ -372,10 +376,18 @@ class Engine:
     def attr_safety(self, st: State, recv: SV, owner: str, fname: str):
         cond = recv.none
         if owner == "Metadata*":
-            pass
+            cond = Or(cond, Not(self.metadata_has_field(recv.v, fname)))
         elif owner in self.repo.classes:
             cond = Or(cond, Not(self.class_in(recv.v, owner)))
         self.may_raise("AttributeError", cond, f"attr:.{fname}")
+
+    def metadata_has_field(self, md, fname: str):
+        """the (dynamic) Metadata class of object `md` declares/inherits dataclass field `fname`"""
+        cids = []
+        for cname, ci in self.repo.classes.items():
+            if cname.endswith(".Metadata") and any(f.name == fname for f in self.repo.all_fields(cname)):
+                cids.append(class_of(md) == ci.cid)
+        return Or(*cids)
 
     def store_field(self, st: State, recv: SV, fname: str, val: SV):
         owner, ty = self.resolve_field(st, recv, fname)
@@ -1029,6 +1041,8 @@ class Engine:
             raise Unsupported("multi-generator comprehension")
         g = n.generators[0]
         src0 = self.ev(g.iter, st)
+        if src0.ty.kind == "tuple" and kind == "set":
+            src0 = SV(Ty("small"), [(TRUE, x) for x in src0.v])      # literal tuple: exact unrolling
         if src0.ty.kind == "small":
             out = []
             for c0, v0 in src0.v:
